@@ -160,6 +160,20 @@ fn translate_select_pipeline(
 
     // GROUP BY
     let aggregate = after_agg.pluck(|t| t.into_aggregate()).into_iter().next();
+    if let Some((partition, _)) = &aggregate {
+        // An aggregation without GROUP BY must collapse its input into a single row even
+        // when none of its values is used downstream. With only the NULL placeholder in
+        // the projection, `SELECT NULL FROM t` would return a row per input row.
+        let only_placeholder = matches!(
+            projection.as_slice(),
+            [SelectItem::UnnamedExpr(sql_ast::Expr::Value(v))] if matches!(v.value, sql_ast::Value::Null)
+        );
+        if partition.is_empty() && only_placeholder {
+            projection[0] = SelectItem::UnnamedExpr(sql_ast::Expr::Value(
+                sql_ast::Value::Placeholder("COUNT(*)".to_string()).into(),
+            ));
+        }
+    }
     let group_by: Vec<CId> = aggregate.map(|(part, _)| part).unwrap_or_default();
     ctx.query.allow_stars = ctx.dialect.stars_in_group();
     let group_by = sql_ast::GroupByExpr::Expressions(try_into_exprs(group_by, ctx, None)?, vec![]);
